@@ -2,7 +2,10 @@
 virtual loop under start/stop histories placed at every suspension point.
 
 case = {"src": {"k": "periodic", "poll": ticks} | {"k": "iterable", "items": [...]}, "sink": "ctl"|"sync",
-        "actions": [["start"], ["stop"], ["adv", ticks], ["ack"]]}
+        "actions": [["start"], ["stop"], ["adv", ticks], ["ack"]],
+        optional "stop_on": v, "stop_via": "src"|"node": the consumer calls stop() on the source (or on the sink node:
+        Stream.stop walks upstream) from INSIDE its callback when it is handed v, i.e. while the polling coroutine is
+        in the middle of an emission (oracle only)}
 """
 import logging
 import vloop
@@ -25,13 +28,18 @@ def run_case(case):
                 src = Stream.from_periodic(cb, poll_interval=sp["poll"] / TICKS_PER_S, asynchronous=True)
             else:
                 src = Stream.from_iterable(list(sp["items"]), asynchronous=True)
+            def react(x):
+                if "stop_on" in case and x == case["stop_on"]:
+                    (st["snk"] if case.get("stop_via") == "node" else st["src"]).stop()
             if case.get("sink", "ctl") == "ctl":
                 def sinkf(x):
+                    react(x)
                     f = loop.create_future()
                     st["out"].append(f)
                     return f
             else:
                 def sinkf(x):
+                    react(x)
                     return None
             snk = src.sink(sinkf)
             orig = snk.update
